@@ -22,19 +22,24 @@ def sh(cmd, cwd=None, timeout=3600, env=None):
 
 
 def demo_cmd(path):
-    lines = open(path, errors='replace').read().split('\n')[:60]
-    cmd, on = [], False
+    lines = open(path, errors='replace').read().split('\n')[:80]
+    cmd, on, cont = [], False, False
     for l in lines:
         t = re.sub(r'^\s*(/\*+|\*+/?|//)\s?', '', l).rstrip()
-        if not on and re.search(r'\b(gcc|cc|clang)\b', t):
+        if not on and re.match(r'\s*(\$ )?(gcc|cc|clang)\b', t):
             on = True
         if on:
             if not t.strip():
                 break
-            cmd.append(t.rstrip('\\').strip())
-            if not t.endswith('\\') and not t.rstrip().endswith('&&'):
-                # continue only if next line looks like a continuation
-                pass
+            piece = t.strip()
+            if piece.startswith('$ '):
+                piece = piece[2:]
+            cont = piece.endswith('\\')
+            cmd.append(piece.rstrip('\\').strip())
+            if not cont and not piece.endswith('&&'):
+                # a following line belongs to the command only if it continues it
+                nxt_ok = False
+            continue
     return ' '.join(cmd)
 
 
@@ -74,6 +79,8 @@ def main():
     finally:
         sh('git checkout -- .', cwd=wt)
     sh('make 2>&1 | tail -1', cwd=wt)
+    # the check regenerated lean/Librfn/Gen from the mutated scratch tree: put the files for /repo back
+    sh([sys.executable, os.path.join(VERIF, 'tools', 'regen_all.py')], cwd=VERIF)
     rc, out = sh(res.get('demo_cmd', 'false'), cwd=d, timeout=1200)
     res['demo_rc_pristine'] = rc
     ok = res.get('tests_pass_with_change') == 17 and res.get('tests_fail_with_change') == 0 and res.get('demo_rc_with_change', 0) != 0 and rc == 0
